@@ -1590,17 +1590,22 @@ func (c *CAManager) SignCertificate(csr *x509.CertificateRequest, spiffeID conne
 		// so they will have a dummy trust domain in the CSR.
 		trustDomain := signingID.Host()
 		if agentID.Host != trustDomain {
-			originalURI := agentID.URI()
+			original := *agentID
 
 			agentID.Host = trustDomain
 
-			// recreate the URIs list
+			// recreate the URIs list. Compare the parsed identities rather than
+			// the strings: a URI that is not byte-identical to our canonical
+			// rendering (explicit default partition, escaped characters) is
+			// still this agent's identity and must not keep the dummy trust
+			// domain in the issued certificate.
 			uris := make([]*url.URL, len(csr.URIs))
 			for i, uri := range csr.URIs {
-				if originalURI.String() == uri.String() {
-					uris[i] = agentID.URI()
-				} else {
-					uris[i] = uri
+				uris[i] = uri
+				if id, err := connect.ParseCertURI(uri); err == nil {
+					if a, ok := id.(*connect.SpiffeIDAgent); ok && *a == original {
+						uris[i] = agentID.URI()
+					}
 				}
 			}
 
